@@ -923,7 +923,7 @@ def explore(ctx: Ctx):
     keys = key_ints(ctx.seed, nk_init)
     keys_direct = key_ints(ctx.seed, 64, salt=1)
     # a contiguous block of key integers disjoint from K (key_ints only yields blocks < 100)
-    keys_cmd = [ctx.seed * 100000 + 50000 + i for i in range(4096 if thorough else 512)]
+    keys_cmd = [(ctx.seed * 100000 + 50000 + i) % (2**31 - 1) for i in range(4096 if thorough else 512)]  # int32: fed to jnp.asarray
     ctx.rule = (
         "randomize: {friction, friction_loss, armature, body_mass, model} x 4 range configurations (documented defaults, "
         "degenerate lo=hi, narrow, wide/disjoint) x input model {nominal, harness-perturbed 'previous episode'} x 64 keys, eager. "
